@@ -68,8 +68,8 @@ func c11DNSMsgRun(c c11DNSMsgCase) (classes []string, nontrivial bool, o c11h.Ou
 		_ = m.Opcode()
 		_ = m.Rcode()
 	})
-	if o.Hung {
-		return []string{"hung"}, true, o
+	if o.Hung || o.Inconclusive {
+		return []string{"gave-up-waiting"}, true, o
 	}
 	return cls, nontrivial, o
 }
